@@ -219,3 +219,8 @@ Proof.
   { destruct order; [discriminate|]. inversion H. split; [reflexivity|discriminate]. }
   destruct E as (-> & Hne). cbn [conns]. split; [apply G|exact Hne].
 Qed.
+
+(* newBuilder: the picker builder goes through base.NewBalancerBuilder (with base.Config{HealthCheck: true}; the
+   flag itself is observed on the registered builder by the multi-picker driver and required by model_ok/spec_ok) *)
+Lemma link_newbuilder_calls : C14_Gen.newbuilder_calls = ["new"; "base.NewBalancerBuilder"; "return"]%string.
+Proof. reflexivity. Qed.
